@@ -100,10 +100,10 @@ def run(tier):
                 p = pe
     # the library's own lock macros (no scheduler): is the list lock really held at every list access?
     nprobe = 0
-    for nm, flags in (("lock_driver", []), ("lock_driver_noop", ["-DBK_NOOP"])):
+    for nm, flags in (("lock_driver", []), ("lock_driver_noop", ["-DBK_NOOP"]), ("lock_driver_dylib", ["-DBK_DYLIB", "-ldl"])):
         d = vp.build(nm, ["lock_driver.cpp"], flags)
         tl = os.path.join(wd, nm + ".ndjson")
-        pl = vp.run(["timeout", "300", d, tl], timeout=400)
+        pl = vp.run(["timeout", "300", d, tl] + ([glib] if "dylib" in nm else []), timeout=400)
         lev = vp.read_ndjson(tl)
         if pl.returncode == 3:
             raise vp.Broken("%s: the exclusion probe cannot get through even when nothing is locked (overloaded machine?)" % nm)
